@@ -243,6 +243,76 @@ def w_bidir(item, rep):
                                   % (n_back, form, [g[2] for g in got_a]), rd)
 
 
+    if not cfg["dyn"]:
+        return
+    # a rejected payload (dynamic payloads: 0 or more than 32 bytes) changes nothing in the radio: "rejected with ValueError
+    # before anything reaches the radio" - neither the payload nor a side effect of the call that refused it.  Histories:
+    # the peer's payload waits unread in the transmitter's RX FIFO and the cached status shows it (send() without
+    # send_only flushes the RX FIFO of a call that goes ahead); an earlier payload failed and waits in the TX FIFO.
+    for hist in ("rx-pending", "tx-failed"):
+        for call in ("send", "send-list", "write"):
+            for n in (0, 33, 40):
+                for buftype in (bytes, bytearray):
+                    w, a, ra, b, rb = link.build_pair(dict(cfg, arc=1, ard=250) if hist == "tx-failed" else cfg)
+                    if hist == "rx-pending":
+                        a.open_rx_pipe(1, back)
+                        a.listen = True
+                        b.listen = False
+                        b.open_tx_pipe(back)
+                        b.send(H.pattern(5, seed, 77))
+                        b.listen = True
+                        a.listen = False
+                        w.advance(300 * link.US)
+                        if not a.available():
+                            raise HarnessError("reverse payload not delivered")
+                    else:
+                        b.listen = False
+                        w.advance(300 * link.US)
+                        if a.send(H.pattern(9, seed, 78)) is not False:
+                            raise HarnessError("set-up: the payload should have failed")
+                        b.listen = True
+                        w.advance(300 * link.US)
+                    def state():
+                        # registers, address registers, FEATURE access, both FIFOs, REUSE_TX_PL of both radios (the CE line of the
+                        # transmitter is not part of it: send() lowers CE before it looks at its argument, which changes nothing
+                        # that the next call depends on)
+                        return (ra.snapshot()[:6], rb.snapshot()[:6])
+                    snap = state()
+                    airmark, mark = len(w.airlog), len(ra.spilog)
+                    buf = buftype(H.pattern(n, seed, 90))
+                    exc = None
+                    try:
+                        if call == "send":
+                            a.send(buf)
+                        elif call == "send-list":
+                            a.send([buf])
+                        else:
+                            a.write(buf)
+                    except (HarnessError, Abort):
+                        raise
+                    except Exception as e:  # noqa
+                        exc = type(e).__name__
+                    w.advance(3 * link.MS)
+                    rep.case()
+                    rep.transitions += 1
+                    rep.traces += 1
+                    rep.part("rejected", executions=1)
+                    rep.outcome("rejected:%s:%s:%s" % (hist, call, exc))
+                    rep.nt("rejected:%r" % ((_cfg_key(cfg), hist, call, n, buftype.__name__),))
+                    rd = {"part": "bidir", "cfg": cfg, "seed": seed}
+                    what = "%s: %s(%d-byte %s) with dynamic payloads on" % (hist, call, n, buftype.__name__)
+                    if exc != "ValueError":
+                        rep.violation("%s/rejected:%s:%s" % (pid, "valueerror-missing" if exc is None else "exception-" + exc, call),
+                                      "%s %s" % (what, "was accepted" if exc is None else "raised " + exc), rd)
+                    elif link.tx_payload_cmds(ra, mark) or len(w.airlog) > airmark:
+                        rep.violation("%s/valueerror-leak:rejected:%s" % (pid, call), "%s raised ValueError but a payload reached the radio / the air" % what, rd)
+                    elif state() != snap:
+                        lost = "RX FIFO" if ra.snapshot()[4] != snap[0][4] else ("TX FIFO" if ra.snapshot()[3] != snap[0][3] else "registers")
+                        rep.violation("%s/rejected:radio-changed:%s:%s" % (pid, hist, call),
+                                      "%s raised ValueError, yet the call changed the transmitting radio's %s (commands on the SPI bus: %s)" % (
+                                          what, lost, [("%02x" % m[0]) for (_, m, _) in ra.spilog[mark:] if m]), rd)
+
+
 # ---------------------------------------------------------------- work items
 def w_core(item, rep):
     cfg, seed, pid, lens = item
@@ -337,6 +407,13 @@ def items(tier, seed, tx_cls="full", rx_cls="full", pid=PID):
         core.append((link.default_cfg(dyn=True, pl=32, ack=True, tx_hist="ackpl:%d" % k, **base), seed, pid, lens))
     for dyn, pl in ((True, 32), (False, 8)):
         core.append((link.default_cfg(dyn=dyn, pl=pl, tx_hist="power", **base), seed, pid, lens))
+    # other driver objects of the same classes live in the same program (link.build_pair / H.bystander): configured with
+    # other lengths, addresses and modes after the link was set up, one failed transmission of their own
+    for dyn, pl in ((True, 32), (False, 8), (False, 32)):
+        core.append((link.default_cfg(dyn=dyn, pl=pl, bystander=True, **base), seed, pid, lens))
+    # the receiver was a transmitter in between (link.build_pair, rx_hist): pipe 0 and pipe 1 links
+    for dyn, pl, pipe in ((True, 32, 0), (False, 8, 0), (True, 32, 1)):
+        core.append((link.default_cfg(dyn=dyn, pl=pl, pipe=pipe, rx_hist="txrole", **base), seed, pid, lens))
     channels = (0, 76, 125) if tier == "quick" else tuple(range(126))
     crcaa = [(2, True)] if lite else [(0, False), (0, True), (1, True), (1, False), (2, True), (2, False)]
     fronts = [(fa, fb)] if lite else [("spidev", "busio"), ("busio", "spidev_pin")]
@@ -375,6 +452,8 @@ def items(tier, seed, tx_cls="full", rx_cls="full", pid=PID):
             for pipe in range(6):
                 group.append(link.default_cfg(pipe=pipe, dyn=False, pl=vec[pipe], pl_vec=list(vec), **base))
             perpipe.append((group, seed, pid))
+        perpipe.append(([link.default_cfg(pipe=pipe, dyn=False, pl=vecs[0][pipe], pl_vec=list(vecs[0]), bystander=True, **base)
+                         for pipe in range(6)], seed, pid))
     for dyn, pl in ((True, 32), (False, 8)):
         burst.append((link.default_cfg(dyn=dyn, pl=pl, **base), seed, pid, (1, 8, 32)))
     return core, cross, lists, perpipe, burst
